@@ -1689,11 +1689,11 @@ fn mutate_once(r: &mut Rng, t: &str) -> String {
         }
     };
     let replace = |s: usize, e: usize, with: &str| format!("{}{}{}", &t[..s], with, &t[e..]);
-    match r.below(16) {
-        0 => pick_tok(r, Tk::Num).map(|(s, e)| replace(s, e, *r.pick(NASTY_VALUES))),
-        1 | 2 => pick_tok(r, Tk::Num).map(|(s, e)| replace(s, e, *r.pick(NASTY_NUMS))),
-        3 => pick_tok(r, Tk::Str).map(|(s, e)| replace(s, e, *r.pick(&["5", "0x10", "1,2", "0@x", "-3", ""]))),
-        4 => {
+    match r.below(26) {
+        0..=2 => pick_tok(r, Tk::Num).map(|(s, e)| replace(s, e, *r.pick(NASTY_VALUES))),
+        3..=8 => pick_tok(r, Tk::Num).map(|(s, e)| replace(s, e, *r.pick(NASTY_NUMS))),
+        9 | 10 => pick_tok(r, Tk::Str).map(|(s, e)| replace(s, e, *r.pick(&["5", "0x10", "1,2", "0@x", "-3", ""]))),
+        11 | 12 => {
             // unknown data type names / other identifiers
             let c: Vec<_> = toks
                 .iter()
@@ -1720,7 +1720,7 @@ fn mutate_once(r: &mut Rng, t: &str) -> String {
                 Some(replace(x.0, x.1, *r.pick(UNKNOWN_TYPES)))
             }
         }
-        5 => {
+        13 | 14 => {
             // drop a "(n)" group
             let mut c = vec![];
             for w in toks.windows(3) {
@@ -1735,8 +1735,8 @@ fn mutate_once(r: &mut Rng, t: &str) -> String {
                 Some(replace(s, e, ""))
             }
         }
-        6 => pick_tok(r, Tk::Punct).map(|(s, e)| replace(s, e, "")),
-        7 => {
+        15 => pick_tok(r, Tk::Punct).map(|(s, e)| replace(s, e, "")),
+        16..=18 => {
             // dangling references: change the number after a *_Ref key or a module reference / slot number
             let mut c = vec![];
             for (i, x) in toks.iter().enumerate() {
@@ -1756,7 +1756,7 @@ fn mutate_once(r: &mut Rng, t: &str) -> String {
                 Some(replace(s, e, &format!("{}", *r.pick(&[0u64, 1, 2, 3, 5, 99, 1337, 65535, 65536, 4294967295, 4294967296]))))
             }
         }
-        8 | 9 => {
+        19 | 20 => {
             // delete / duplicate / swap lines
             let ls = line_starts(t);
             let c: Vec<usize> = (0..ls.len()).filter(|i| ls[*i] >= body).collect();
@@ -1773,11 +1773,11 @@ fn mutate_once(r: &mut Rng, t: &str) -> String {
                 })
             }
         }
-        10 => {
+        21 => {
             let i = floor_boundary(t, r.below(t.len() as u64 + 1) as usize);
             Some(t[..i].to_string())
         }
-        11 => {
+        22 => {
             // empty a block: remove the lines between a block keyword line and the next End line
             let ls = line_starts(t);
             let mut c = vec![];
@@ -1808,7 +1808,7 @@ fn mutate_once(r: &mut Rng, t: &str) -> String {
                 }
             }
         }
-        12 => {
+        23 => {
             // remove an End keyword line
             let ls = line_starts(t);
             let c: Vec<usize> = (0..ls.len())
